@@ -255,6 +255,24 @@ Check quadratic_forward_error_conditioned : forall (eps : R) (O : RoundOps) (a b
 Print Assumptions quadratic_forward_error_conditioned.
 (* non-vacuity: quadratic_forward_error_dominant_nonvacuous below (kD = 3) *)
 
+(* the same from the LOCAL hypotheses (quad_ops_ok: no operation performed on (a, b, c) leaves the range in which it has relative
+   error eps -- for binary64: no underflow, no overflow on this input; KF-C10-H excluded) *)
+Theorem quadratic_forward_error_conditioned_local : forall (eps : R) (O : RoundOps) (a b c : C) (kD : R),
+  (0 <= eps <= / 100)%R -> a <> RtoC 0 -> quad_ops_ok eps O a b c -> (0 <= kD)%R ->
+  (Cmod b * Cmod b + 4 * (Cmod a * Cmod c) <= kD * Cmod (qdisc a b c))%R -> (5.11 * eps * kD <= / 6)%R ->
+  exists r0 r1 x0 x1 : C, poly_solve (RoundRAo eps O) [c; b; a] false = Ok ([r0; r1], []) /\
+    (forall x : C, (a * x * x + b * x + c)%C = (a * (x - x0) * (x - x1))%C) /\
+    (Cmod (r0 - x0)%C <= (6 + 10.22 * kD) * eps * Cmod x0)%R /\ (Cmod (r1 - x1)%C <= (6 + 10.22 * kD) * eps * Cmod x1)%R.
+Proof. intros eps O a b c kD. exact (quadratic_forward_conditioned_local_lemma eps O a b c kD). Qed.
+Check quadratic_forward_error_conditioned_local : forall (eps : R) (O : RoundOps) (a b c : C) (kD : R),
+  (0 <= eps <= / 100)%R -> a <> RtoC 0 -> quad_ops_ok eps O a b c -> (0 <= kD)%R ->
+  (Cmod b * Cmod b + 4 * (Cmod a * Cmod c) <= kD * Cmod (qdisc a b c))%R -> (5.11 * eps * kD <= / 6)%R ->
+  exists r0 r1 x0 x1 : C, poly_solve (RoundRAo eps O) [c; b; a] false = Ok ([r0; r1], []) /\
+    (forall x : C, (a * x * x + b * x + c)%C = (a * (x - x0) * (x - x1))%C) /\
+    (Cmod (r0 - x0)%C <= (6 + 10.22 * kD) * eps * Cmod x0)%R /\ (Cmod (r1 - x1)%C <= (6 + 10.22 * kD) * eps * Cmod x1)%R.
+Print Assumptions quadratic_forward_error_conditioned_local.
+(* non-vacuity: quadratic_residual_local_bounded_range_nonvacuous above (x^2 - 5x + 2: kD = 3) *)
+
 (* the discriminant IS accurate, with no hypothesis, when one of b^2, 4ac dominates the other by a factor 2 ... *)
 Theorem disc_accurate_dominant : forall (eps : R) (O : RoundOps) (a b c : C),
   (0 <= eps <= / 100)%R -> std_model eps O ->
